@@ -784,10 +784,12 @@ impl BuiltInFunction {
                     unreachable!()
                 };
 
-                let (s, radix) = if s.starts_with("0b") {
-                    (s.get(2..).unwrap_or_default(), 2)
-                } else {
-                    (s.as_str(), 10)
+                // after the `0b` marker only binary digits may follow (`from_str_radix` itself would
+                // take a sign there: "0b+1")
+                let (s, radix) = match s.strip_prefix("0b") {
+                    Some(bits) if bits.starts_with(['0', '1']) => (bits, 2),
+                    Some(_) => ("", 2),
+                    None => (s.as_str(), 10),
                 };
 
                 if let Ok(num) = u8::from_str_radix(s, radix) {
